@@ -514,6 +514,45 @@ def c16_engine(pid, tier, seed, exe, workdir, V):
     return a
 
 
+def time_engine(pid, tier, seed, exe, workdir, V):
+    """C02 / C13: index keys of time.Time values (newIndexedField), what AssignIndex turns them back into, and
+    the objects every comparison selects between stored instants (inside the range of UnixNano, at its ends,
+    far outside, the zero time; several locations): against Model/Norm.v (time_key, key_time, key order) and
+    against the time ordering itself."""
+    rounds = 60 if tier == 'quick' else 2500
+    res = {'oracle_failures': [], 'evaluations': 0, 'nontrivial': 0, 'samples': [], 'mismatches': []}
+    out = os.path.join(workdir, 'timekey.txt')
+    _sh([exe, '-timekey', '-seed', str(seed), '-n', str(rounds), '-out', out], timeout=3000)
+    txt = open(out).read() if os.path.exists(out) else ''
+    drv = os.path.join(V, 'ocaml', 'driver')
+    r = subprocess.run([drv, '-timekey', out], stdout=subprocess.PIPE, stderr=subprocess.STDOUT, text=True, timeout=3000)
+    kinds = {}
+    seen = set()
+    for l in txt.splitlines():
+        if l.startswith('! ' + pid):
+            # one failure per kind of statement (operator / call, range tag), the first instance as the replay
+            k = re.sub(r'\d{4}-\d\d-\d\dT[0-9:.]+Z', 'T', l)
+            if k in seen:
+                continue
+            seen.add(k)
+            res['oracle_failures'].append({'line': l[:600], 'replay': [l[:600]], 'hist': 'time keys'})
+    for l in r.stdout.splitlines():
+        if l.startswith('same '):
+            res['evaluations'] += 1
+            kinds[l] = kinds.get(l, 0) + 1
+            if 'out-of-range' in l or l == 'same ts':
+                res['nontrivial'] += 1
+        elif l.strip():
+            res['mismatches'].append({'op': 'timekey', 'impl': l[:600], 'model': '', 'replay': [l[:1500]]})
+    if 'timekey done' not in txt:
+        res['broken'] = 'time key engine did not finish: ' + txt[-300:]
+    if res['mismatches']:
+        res['broken'] = 'indexed_field.go / schema.go (time keys) and Model/Norm.v disagree: %s' % res['mismatches'][0]['impl'][:600]
+    res['distribution'] = kinds
+    res['summary'] = 'time keys: %d comparisons with Model/Norm.v on %d collections of 4..11 instants: %s' % (res['evaluations'], rounds, json.dumps(kinds, sort_keys=True))
+    return res
+
+
 def run_extra(pid, tier, seed, exe, workdir, V):
     mod = EXTRA.get(pid)
     if mod is None:
@@ -521,4 +560,4 @@ def run_extra(pid, tier, seed, exe, workdir, V):
     return mod(pid, tier, seed, exe, workdir, V)
 
 
-EXTRA = {'C16': c16_engine, 'C17': descr_engine, 'C14': clone_engine, 'C19': fuzz_engine, 'C09': lock_engine, 'C08': race_engine, 'C12': pair_engine, 'C18': golden_engine}
+EXTRA = {'C02': time_engine, 'C13': time_engine, 'C16': c16_engine, 'C17': descr_engine, 'C14': clone_engine, 'C19': fuzz_engine, 'C09': lock_engine, 'C08': race_engine, 'C12': pair_engine, 'C18': golden_engine}
